@@ -7,6 +7,7 @@ C04 / C05 — MODEL side: the rows of a RESULT/Rows frame as the consumers see t
               TupleColumnName (321), goType (43-102)
   marshal.go  unmarshalTuple on a `[]interface{}` destination (2107-2126), readBytes (2094-2102)
   conn.go     executeQuery: choice of the iterator's metadata with skip-metadata (1432-1448)
+(the code AFTER the repairs of KF-C04-2 (iterScanner.Scan), KF-C04-4 (goType), KF-C04-5 (executeQuery))
 
 Destinations are observed at the bytes level: a non-nil destination is a recorder implementing
 `gocql.Unmarshaler`, for which `Unmarshal(info, data, dest)` is `dest.UnmarshalCQL(info, data)`
@@ -167,16 +168,17 @@ def Scanner.next (s : Scanner) : Outcome (Scanner × Bool) :=
     | .err => .ok ({ s with it := { s.it with failed := true } }, false)
     | .crash => .crash
 
-/-- the column loop of iterScanner.Scan: `scanColumn(is.cols[i], col, dest[i:])` where `i` is the
-    DESTINATION position (not the column index) -/
-def scannerCols : List ColumnInfo → Nat → List Bool → List (Option Bytes) → List Call → RowOut
-  | [], _, _, _, acc => .done [] acc
-  | col :: cols, i, dests, cells, acc =>
-    if i ≥ cells.length then .crash                    -- is.cols[i]: index out of range
-    else match scanColumn ((cells.getD i none)) col (dests.drop i) i with
+/-- the column loop of iterScanner.Scan: `for c, col := range iter.meta.columns {
+    n, err = scanColumn(is.cols[c], col, dest[i:]); i += n }` — `c` is the column index (the cell of
+    the row), `i` the destination position -/
+def scannerCols : List ColumnInfo → Nat → Nat → List Bool → List (Option Bytes) → List Call → RowOut
+  | [], _, _, _, _, acc => .done [] acc
+  | col :: cols, c, i, dests, cells, acc =>
+    if c ≥ cells.length then .crash                    -- is.cols[c]: index out of range
+    else match scanColumn ((cells.getD c none)) col (dests.drop i) i with
       | .crash => .crash
       | .err calls => .failed (acc ++ calls)
-      | .ok n calls => scannerCols cols (i + n) dests cells (acc ++ calls)
+      | .ok n calls => scannerCols cols (c + 1) (i + n) dests cells (acc ++ calls)
 
 inductive ScannerScanOut
   | ok (s : Scanner) (calls : List Call)       -- Scan returned nil
@@ -188,7 +190,7 @@ deriving Repr
 def Scanner.scan (s : Scanner) (dests : List Bool) : ScannerScanOut :=
   if !s.valid then .error s []
   else if (dests.length : Int) ≠ s.it.md.actualColCount then .error s []
-  else match scannerCols s.it.md.columns 0 dests s.cols [] with
+  else match scannerCols s.it.md.columns 0 0 dests s.cols [] with
     | .done _ calls => .ok { s with valid := false } calls
     | .failed calls => .error { s with valid := false } calls
     | .crash => .crash
@@ -222,8 +224,9 @@ def comparableGo : TypeInfo → Bool
   | .native n => n.typ != 0x03
   | _ => false
 
-/-- helpers.go goType (43-102). For a map, `reflect.MapOf(keyType, valueType)` PANICS when the key's
-    Go type is not comparable (e.g. `map<blob, int>`, `map<frozen<list<int>>, text>`). -/
+/-- helpers.go goType (43-105). For a map whose key's Go type is not comparable (e.g. `map<blob, int>`,
+    `map<frozen<list<int>>, text>`) it returns an error (`!keyType.Comparable()`), after both the key
+    and the value type have been obtained. -/
 def goType : TypeInfo → GoT
   | .native n =>
     if [0x0D, 0x01, 0x10, 0x0A, 0x02, 0x05, 0x12, 0x0B, 0x03, 0x04, 0x08, 0x07, 0x09, 0x13, 0x14,
@@ -238,7 +241,7 @@ def goType : TypeInfo → GoT
         match goType k with
         | .ok =>
           match goType elem with
-          | .ok => if comparableGo k then .ok else .crash
+          | .ok => if comparableGo k then .ok else .err
           | e => e
         | e => e
     else goType elem
@@ -252,24 +255,27 @@ def goTypeAll : List TypeInfo → GoT
     | .ok => goTypeAll ts
     | e => e
 
-/-- Iter.RowData: column names (a tuple column contributes `name[i]` per element); `err` when
-    NewWithError fails for some column / tuple element, `crash` when it panics -/
+/-- the body of Iter.RowData's loop for one column: a tuple column contributes `name[i]` per
+    element (`elem.NewWithError()` each), any other column `name` (`column.TypeInfo.NewWithError()`) -/
+def rowDataCol (c : ColumnInfo) : Outcome (List Bytes) :=
+  match c.typ with
+  | .tuple _ elems =>
+    (match goTypeAll elems with
+     | .ok => .ok ((List.range elems.length).map (tupleColumnName c.name))
+     | .err => .err
+     | .crash => .crash)
+  | t =>
+    (match goType t with
+     | .ok => .ok [c.name]
+     | .err => .err
+     | .crash => .crash)
+
+/-- Iter.RowData: the column names; `err` when NewWithError fails for some column / tuple element,
+    `crash` when it panics -/
 def rowDataColumns : List ColumnInfo → Outcome (List Bytes)
   | [] => .ok []
   | c :: cs =>
-    let here : Outcome (List Bytes) :=
-      match c.typ with
-      | .tuple _ elems =>
-        (match goTypeAll elems with
-         | .ok => .ok ((List.range elems.length).map (tupleColumnName c.name))
-         | .err => .err
-         | .crash => .crash)
-      | t =>
-        (match goType t with
-         | .ok => .ok [c.name]
-         | .err => .err
-         | .crash => .crash)
-    match here with
+    match rowDataCol c with
     | .ok names =>
       (match rowDataColumns cs with
        | .ok rest => .ok (names ++ rest)
@@ -338,10 +344,12 @@ def sliceMap (it : Iter) : SliceMapOut :=
 
 /-! ## the iterator built by executeQuery (conn.go:1432-1448) -/
 
-/-- `iter.meta`: with `params.skipMeta` the prepared statement's result metadata with the page's
-    paging state (`copyBytes`: nil becomes empty), otherwise the frame's metadata -/
+/-- `iter.meta`: with `params.skipMeta` and a page that carries the NO_METADATA flag the prepared
+    statement's result metadata with the page's paging state (`copyBytes`: nil becomes empty),
+    otherwise (also when the page carries metadata although the driver asked to skip it) the
+    frame's metadata -/
 def iterMeta (skipMeta : Bool) (info : Option ResultMeta) (x : ResultMeta) : Option ResultMeta :=
-  if skipMeta then
+  if skipMeta && hasFlag x.flags flagNoMetaData then
     match info with
     | some resp => some { resp with pagingState := some (x.pagingState.getD []) }
     | none => none           -- "did not receive metadata but prepared info is nil"
